@@ -56,8 +56,10 @@ class BAMOnlineMerger:
         self.start = start
         self.end = end
         # fetch uses 0-based semi-closed interval
+        # a file of the experiment may not list this sequence in its header at all (e.g. files split by chromosome): nothing to read there
         self.alignment_iterators = [bp[0].fetch(self.chr_id, self.start, self.end + 1,
-                                                multiple_iterators=self.multiple_iterators) for bp in self.bam_pairs]
+                                                multiple_iterators=self.multiple_iterators)
+                                    if bp[0].get_tid(self.chr_id) >= 0 else iter(()) for bp in self.bam_pairs]
         self.current_elements = PriorityQueue(len(self.alignment_iterators))
         for i, it in enumerate(self.alignment_iterators):
             try:
@@ -237,8 +239,9 @@ class AlignmentCollector:
         self.chr_record = chr_record
         self.illumina_bam = illumina_bam
 
-        self.bam_merger = BAMOnlineMerger(self.bam_pairs, self.chr_id, 0,
-                                          self.bam_pairs[0][0].get_reference_length(self.chr_id),
+        # not every file of the experiment needs to list this sequence in its header
+        chr_length = max([bp[0].get_reference_length(self.chr_id) for bp in self.bam_pairs if bp[0].get_tid(self.chr_id) >= 0] + [0])
+        self.bam_merger = BAMOnlineMerger(self.bam_pairs, self.chr_id, 0, chr_length,
                                           multiple_iterators=not self.params.high_memory)
         self.strand_detector = StrandDetector(self.chr_record)
         self.read_groupper = read_groupper
